@@ -25,8 +25,9 @@ type outSpec struct {
 	NoMetadata  bool        `json:"no_metadata"`
 	DisableJSON bool        `json:"disable_json"`
 	Timestamp   bool        `json:"add_timestamp"`
-	Real        bool        `json:"real"`  // real shell cross-check
-	Other       bool        `json:"other"` // a second process logging concurrently (unified file)
+	Real        bool        `json:"real"`      // real shell cross-check
+	Other       bool        `json:"other"`     // a second process logging concurrently (unified file)
+	ShortLog    int         `json:"short_log"` // >0: log_length smaller than the output (single stream); the stored log must be the exact tail
 }
 
 func genOutSpec(rng *rand.Rand, i int) outSpec {
@@ -85,7 +86,59 @@ func genOutSpec(rng *rand.Rand, i int) outSpec {
 	sp.DisableJSON = rng.Intn(4) == 0
 	sp.Timestamp = rng.Intn(4) == 0
 	sp.Other = sp.FileMode == "unified" && rng.Intn(2) == 0
+	if i%10 == 7 {
+		// more output than the configured length: single stream, so that the
+		// stored tail is fully determined
+		sp.ShortLog = 5 + rng.Intn(200)
+		sp.Chunks = []sim.Chunk{{Stream: "o", N: sp.ShortLog + 90 + rng.Intn(350), Len: []int{0, 0, 40}[rng.Intn(3)]}}
+		if rng.Intn(2) == 0 {
+			sp.Chunks = append(sp.Chunks, sim.Chunk{Stream: "o", N: 1 + rng.Intn(120), When: "x", NoNL: rng.Intn(2) == 0})
+		}
+		sp.Restarts = []int{0, 0, 1, 2}[rng.Intn(4)]
+	}
 	return sp
+}
+
+// checkTail: the stored log is limited to L lines (the buffer may keep up to
+// 100 more); its id-carrying lines must be a gap-free, duplicate-free run that
+// ends with the last line written, and at least min(L, total) lines are kept.
+func checkTail(name string, mem []string, attempts, perAttempt, L int, r *fw.Result) {
+	type id struct{ att, k int }
+	var ids []id
+	for _, l := range mem {
+		pn, att, _, k, ok := parseLineID(l)
+		if ok && pn == name {
+			ids = append(ids, id{att, k})
+		}
+	}
+	total := attempts * perAttempt
+	if len(mem) < L && len(mem) < total {
+		r.Add("C11", "tail-too-short", "in-memory log holds %d lines, log_length is %d and %d lines were written", len(mem), L, total)
+		return
+	}
+	if len(ids) == 0 {
+		r.Add("C11", "lost-tail", "in-memory log holds none of the %d lines written", total)
+		return
+	}
+	for i := 1; i < len(ids); i++ {
+		a, b := ids[i-1], ids[i]
+		ok := (b.att == a.att && b.k == a.k+1) || (b.att == a.att+1 && b.k == 0 && a.k == perAttempt-1)
+		if !ok {
+			what := "missing-line"
+			if b.att < a.att || (b.att == a.att && b.k <= a.k) {
+				what = "duplicate-or-reordered-line"
+			}
+			r.Add("C11", what, "in-memory log (log_length %d): line %d of attempt %d is followed by line %d of attempt %d", L, a.k, a.att, b.k, b.att)
+			return
+		}
+	}
+	last := ids[len(ids)-1]
+	if last.att != attempts || last.k != perAttempt-1 {
+		r.Add("C11", "lost-tail", "in-memory log (log_length %d) ends with line %d of attempt %d, the last line written is line %d of attempt %d", L, last.k, last.att, perAttempt-1, attempts)
+		return
+	}
+	r.Count("lines_verified", len(ids))
+	r.Count("trimmed_logs_verified", 1)
 }
 
 // expectedIDs returns per attempt and stream the number of lines.
@@ -105,7 +158,23 @@ type idKey struct {
 // checkIDSeq: lines is the sequence of log lines (in log order); every
 // id-carrying line of process name must appear exactly once, per (attempt,
 // stream) in order 0..N-1, attempts in order.
-func checkIDSeq(where, name string, lines []string, attempts int, counts map[string]int, r *fw.Result) {
+func checkIDSeq(where, name string, lines []string, attempts int, counts map[string]int, r *fw.Result, chunks ...[]sim.Chunk) {
+	// expected padded length per (stream, k), in emission order
+	lens := map[string]int{}
+	if len(chunks) > 0 {
+		ctr := map[string]int{}
+		for _, when := range []string{"", "x"} {
+			for _, c := range chunks[0] {
+				if c.When != when {
+					continue
+				}
+				for i := 0; i < c.N; i++ {
+					lens[fmt.Sprintf("%s/%d", c.Stream, ctr[c.Stream])] = c.Len
+					ctr[c.Stream]++
+				}
+			}
+		}
+	}
 	next := map[idKey]int{}
 	lastAtt := 0
 	total := 0
@@ -130,6 +199,13 @@ func checkIDSeq(where, name string, lines []string, attempts int, counts map[str
 			}
 			r.Add("C11", what, "%s: attempt %d stream %s: line %d found where line %d was expected", where, att, st, k, next[key])
 			return
+		}
+		// the line carries exactly the text that was written
+		if len(chunks) > 0 {
+			if want := sim.LineText(name, att, st, k, lens[fmt.Sprintf("%s/%d", st, k)]); !strings.Contains(l, want) {
+				r.Add("C11", "line-content", "%s: attempt %d stream %s line %d reads %q, written %q", where, att, st, k, truncS(l, 200), truncS(want, 200))
+				return
+			}
 		}
 		// the line must be complete (long lines are padded and end with '$')
 		if strings.Contains(l, "#x") && !strings.HasSuffix(strings.TrimRight(l, "\"}\r\n "), "$") && !strings.Contains(l, "$") {
@@ -207,7 +283,11 @@ func runOutput(c fw.Case) fw.Result {
 	}
 	var y strings.Builder
 	y.WriteString("version: \"0.5\"\n")
-	fmt.Fprintf(&y, "log_length: %d\n", total*attempts+attempts*4+50)
+	if sp.ShortLog > 0 {
+		fmt.Fprintf(&y, "log_length: %d\n", sp.ShortLog)
+	} else {
+		fmt.Fprintf(&y, "log_length: %d\n", total*attempts+attempts*4+50)
+	}
 	logCfg := func(indent string) {
 		if sp.FlushEach || sp.NoMetadata || sp.DisableJSON || sp.Timestamp {
 			fmt.Fprintf(&y, "%slog_configuration:\n", indent)
@@ -261,8 +341,10 @@ func runOutput(c fw.Case) fw.Result {
 	mem, err := env.Runner.GetProcessLog("lg", 1<<30, 0)
 	if err != nil {
 		r.Add("C11", "log-unavailable", "GetProcessLog failed: %v", err)
+	} else if sp.ShortLog > 0 {
+		checkTail("lg", mem, attempts, total, sp.ShortLog, &r)
 	} else {
-		checkIDSeq("in-memory log", "lg", mem, attempts, counts, &r)
+		checkIDSeq("in-memory log", "lg", mem, attempts, counts, &r, sp.Chunks)
 	}
 	switch sp.FileMode {
 	case "proc":
@@ -270,14 +352,14 @@ func runOutput(c fw.Case) fw.Result {
 		if err != nil {
 			r.Add("C11", "log-file-missing", "log file: %v", err)
 		} else {
-			checkIDSeq("log file", "lg", lines, attempts, counts, &r)
+			checkIDSeq("log file", "lg", lines, attempts, counts, &r, sp.Chunks)
 		}
 	case "unified":
 		lines, err := readLogFile(unified, &sp)
 		if err != nil {
 			r.Add("C11", "log-file-missing", "unified log file: %v", err)
 		} else {
-			checkIDSeq("unified log file", "lg", lines, attempts, counts, &r)
+			checkIDSeq("unified log file", "lg", lines, attempts, counts, &r, sp.Chunks)
 			if sp.Other {
 				checkIDSeq("unified log file", "ot", lines, 1, map[string]int{"o": 200, "e": 50}, &r)
 			}
